@@ -159,14 +159,20 @@ def gen_search(rng, k, thorough):
     gap = "-" if (strat == "d" and open_par) else rng.randint(1, 4)
     if strat == "d" and n > 150:
         n = 100
-    return {"mode": "S", "strategy": strat, "n": n, "perc": perc, "gap": gap, "seed": rng.randint(1, 2**31 - 1),
-            "runs": rng.randint(1, 3), "gens": rng.randint(1, 5)}
+    c = {"mode": "S", "strategy": strat, "n": n, "perc": perc, "gap": gap, "seed": rng.randint(1, 2**31 - 1),
+         "runs": rng.randint(1, 3), "gens": rng.randint(1, 5)}
+    # dss: half of the runs go through the real caching proxy (evaluator_proxy) around the training evaluator
+    c["cache"] = rng.choice([7, 8, 10]) if (strat == "d" and (k // 2) % 2 == 1) else 0
+    if c["cache"]:
+        c["gens"] = rng.randint(3, 7)
+    return c
 
 
 def harness_line(c):
     if c["mode"] == "D":
         return "D %d %s %s %d %s" % (c["n"], c["perc"], c["gap"], c["seed"], " ".join(c["ops"]))
-    return "S %s %d %s %s %d %d %d" % (c["strategy"], c["n"], c["perc"], c["gap"], c["seed"], c["runs"], c["gens"])
+    return "S %s %d %s %s %d %d %d %d" % (c["strategy"], c["n"], c["perc"], c["gap"], c["seed"], c["runs"], c["gens"],
+                                         c.get("cache", 0))
 
 
 # ------------------------------------------------------------------ oracle
@@ -400,6 +406,16 @@ def run_search(ck, cases, houts, crashes, model, base):
             bad("src_search:dss:parameter-left-open",
                 "src_search::run with dss and the period left open: env.dss is still undefined after "
                 "tune_parameters (%d rows)" % c["n"])
+        # through the real cache proxy: a fitness obtained after a reshuffle must be the one of the new training set
+        for e in evs:
+            if e[0] == "G" and len(e) > 6:
+                ck.coverage["proxy_fitness_compared"] = ck.coverage.get("proxy_fitness_compared", 0) + 1
+                if e[6] == "F0":
+                    bad("dss:stale-cached-fitness",
+                        "src_search dss n=%d period=%s cache 2^%s: at the end of generation %s of run %s the caching "
+                        "evaluator answers with a fitness that is not the one of the current training set (cached "
+                        "values were not dropped at a reshuffle)" % (c["n"], c["gap"], c.get("cache"), e[2], e[1]))
+                    break
         # rebuild the history of calls from the events
         toks = []           # model ops
         expect = []         # (index of model observation, T string, V string, clr_t, clr_v) to compare
@@ -567,6 +583,11 @@ def run(ck):
     if problems:
         ck.notes.append("translator: " + "; ".join(problems)[:500] +
                         " -- Gen/ValidFacts.v kept as hand-written model, tie = correspondence only")
+        # the working copy may hold the facts of another tree: go back to the checked-in ones
+        rc, good = vv.sh(["git", "-C", vv.VERIF, "show", "HEAD:coq/Gen/ValidFacts.v"])
+        if rc == 0 and "gen_weight" in good:
+            with vv.Lock("coq"):
+                vv.write_if_changed(os.path.join(vv.COQ, "Gen", "ValidFacts.v"), good)
     else:
         with vv.Lock("coq"):
             vv.write_if_changed(os.path.join(vv.COQ, "Gen", "ValidFacts.v"), text)
